@@ -526,4 +526,13 @@ def r06_5(ctx):
     return o
 
 
-RULES = [r06_1, r06_2, r06_3, r06_4, r06_5]
+def r06_6(ctx):
+    from rules import C15
+    o = C15.r15_1(ctx)
+    o.rule = "R06.6"
+    o.text = ("no zero-length piece from splitting: parameters equal to 0 or 1 within the tolerance are ignored, "
+              "symmetrically (same analysis as R15.1)")
+    return o
+
+
+RULES = [r06_1, r06_2, r06_3, r06_4, r06_5, r06_6]
